@@ -513,8 +513,12 @@ class RawFileSystem(FileSystem[str]):
     def _resolve_path(self, path: str) -> str:
         """Get the absolute path."""
         abs_path = os.path.abspath(os.path.join(self.path, path))
-        if self.constrain_path and not abs_path.startswith(self.path):
-            raise RootEscapeError(self.path, path)
+        if self.constrain_path and abs_path != self.path:
+            # Compare whole path components - a plain prefix check would accept the sibling
+            # "root_other" for the root "root".
+            root = self.path if self.path.endswith(os.sep) else self.path + os.sep
+            if not abs_path.startswith(root):
+                raise RootEscapeError(self.path, path)
         return abs_path
 
     def walk_folder(self, folder: str = '') -> Iterator[File[Self]]:
